@@ -194,12 +194,14 @@ Inductive clause := ClSelect | ClOn | ClWhere | ClGroupBy | ClHaving | ClOrderBy
                   | ClInsColumn | ClInsValue | ClText.
 
 (* names and in-statement references of the sources; [base] = the tables do_join compares a joined table with *)
-(* [tk]: the names in use before the joins, from the names of the FROM items (SELECT: ... ++ WITH names; UPDATE: target :: ...) *)
+(* [tk]: the names in use before the joins, from the names of the FROM items (SELECT: just these; UPDATE: target :: ...) *)
 Definition stmt_names (base : list tref) (tk : list string -> list string) (from : list source) (joins : list (jhow * source * jcond))
   : list (option string) * list (option string) :=
   let (fnames, n1) := name_from sub_count 0 from in
   let (jnames, _) := name_joins base (tk (src_names from fnames)) n1 joins in (fnames, jnames).
-Definition sel_tk (withs : list (string * query)) (l : list string) : list string := l ++ map fst withs.
+(* SELECT: the names of the FROM items only -- the WITH names are NOT part of the names in use (pypika 2def80d: the
+   numbered alias must not depend on whether with_() was called before or after the join); [withs] is kept as a parameter *)
+Definition sel_tk (withs : list (string * query)) (l : list string) : list string := l.
 Definition upd_tk (tbl : tref) (l : list string) : list string := tref_name tbl :: l.
 Definition jsources (joins : list (jhow * source * jcond)) : list source := map (fun j => snd (fst j)) joins.
 Definition stmt_srcs (base : list tref) (tk : list string -> list string) (from : list source) (joins : list (jhow * source * jcond)) : list tref :=
@@ -708,6 +710,14 @@ Definition name2_names (x : query) : list string :=
       numbered_of (jsources joins) (snd (stmt_names (base_tables from) (sel_tk withs) from joins))
   | QUpd _ tbl _ from joins _ _ =>
       numbered_of (jsources joins) (snd (stmt_names (tbl :: base_tables from) (upd_tk tbl) from joins))
+  | _ => []
+  end.
+(* the names in use when the first join is made: the FROM items' names (tables, tagged sub-queries, WITH references that
+   are selected FROM) and the UPDATE target -- not the names of WITH queries that are merely defined *)
+Definition base_names (x : query) : list string :=
+  match x with
+  | QSel _ _ _ _ from _ _ _ _ _ _ _ _ _ => src_names from (fst (name_from sub_count 0 from))
+  | QUpd _ tbl _ from _ _ _ => tref_name tbl :: src_names from (fst (name_from sub_count 0 from))
   | _ => []
   end.
 (* every name the builder makes up in one statement *)
